@@ -10,9 +10,12 @@ THEOREMS = {"C04": ["apply_patch_replay", "apply_patch_verdicts", "verdicts_are_
                     "section_reverse_of_creation_removes", "section_deletes", "section_reverse_of_deletion_recreates",
                     "creation_roundtrip", "deletion_roundtrip", "section_reverse_of_creation_without_E", "rename_forward",
                     "rename_reverse", "rename_roundtrip"],
-            "C06": ["reapply_ignored", "reapply_reversed", "force_no_guess"], "C15": ["dry_run_pure", "dry_run_predicts"], "C16": ["section_ops_allowed", "finalize_ops_allowed", "finalize_removals_allowed", "exec_op_frame"],
-            "C17": ["write_now_sets_mode", "refusal_writes_only_rejects"],
-            "C18": ["backup_name_spec", "make_backup_for_shape", "ensure_extends", "backup_holds_original", "backup_only_once"]}
+            "C06": ["reapply_ignored", "reapply_reversed", "force_no_guess", "apply_ignored_total", "section_ignored_N",
+                    "section_ignored_N_over", "section_ignored_N_frame"], "C15": ["dry_run_pure", "dry_run_predicts"], "C16": ["section_ops_allowed", "finalize_ops_allowed", "finalize_removals_allowed", "exec_op_frame"],
+            "C17": ["write_now_sets_mode", "refusal_writes_only_rejects", "git_section_mode", "section_git_next",
+                    "git_series_mode"],
+            "C18": ["backup_name_spec", "make_backup_for_shape", "ensure_extends", "backup_holds_original", "backup_only_once",
+                    "series_backup_two_gen", "series_backup_two", "backup_before_first_write", "git_series_backup"]}
 
 K_CTX_EPOCH = ("K-C05-context-epoch-deletion-reversed", "-R of a whole-file deletion in context format written diff -cN style (new name real, epoch time stamp, '--- 0 ----'): 'can't find file to patch', exit 2 (the deletion is only recognised from the new range, which the header scan of a context diff does not see)")
 
